@@ -767,6 +767,7 @@ def profile_cli19(rnd, n, thorough, out):
             r, tags, ju, evs, cause, oracle = cli_run_set(cwd, files, kinds, jobs, False, keep, rnd, sigint_at=k, latency=lat)
             tag = f"cli19 set={si} jobs={jobs} keep={keep} sigint_at={k}/{nreq}"
             sig = any(e["ev"] == "sigint" for e in r.events)
+            owner = None
             # (k = nreq is the very last request of the run, the final DROP DATABASE or the last record:
             # once its reply is in the run is over, and whether the signal is noticed before the exit
             # status is computed is a race the property cannot mean — seen once in 1405 thorough runs)
@@ -794,6 +795,17 @@ def profile_cli19(rnd, n, thorough, out):
             out.add(climon_case(jobs, keep, r.exit, True, files, kinds, tags, ju, evs), "accept", tag,
                     ("C19|" + oracle) if oracle else None)
             add_trace(out, jobs, keep, False, files, kinds, tags, r, tag)
+            if sig and jobs == 0 and not r.timeout and owner is not None and k < nreq:
+                # serial: the whole result list and the exit status against the model's fold, with the
+                # signal taking effect during the owner of the k-th request (it is reported cancelled) or
+                # right after it (it finished with its own result before the flag was seen)
+                oi = files.index(owner)
+                t_owner = TAGMAP[tags.get(owner, [None])[0]]
+                during = t_owner == "cancelled"
+                impl = f"exit={0 if r.exit == 0 else 1} " + " ".join(TAGMAP[tags.get(f, [None])[0]] for f in files)
+                out.add(f"serialsig 0 {len(files)} " + " ".join(GROUND[kinds[f]] for f in files) +
+                        f" {oi if during else oi + 1} {1 if during else 0}", impl,
+                        tag + f" [serial fold, signal {'during' if during else 'after'} file {oi}]", None)
         # ---- Ctrl-C while a file waits in a `sleep` record (or a retry back-off): the wait is cut short,
         # nothing more is sent for the file, the CLI exits promptly
         for f in files:
